@@ -240,47 +240,14 @@ theorem istreamSkipLoop_sim {σ τ : Type} {I : StreamI σ} {J : StreamI τ} {R 
         simp only []
         exact ih _ _ _ os1 osj (hs.adv _ _ _ hr1) hn1 hj
 
-/-- the state `realize_sparse` leaves when nothing fails -/
-def realizeRes (o : OStream) : OStream :=
-  if o.sparse = 0 then o
-  else if o.noSparse then { o with out := o.out ++ List.replicate o.sparse 0, size := o.size + o.sparse, sparse := 0 }
-  else { o with out := o.out ++ List.replicate o.sparse 0, sparse := 0 }
-
-theorem realizeSparse_det (st : OStream) (os : OS) (hn : noHard os.sc = true) :
-    ∃ os', realizeSparse st os = (.ok, realizeRes st, os') ∧ noHard os'.sc = true := by
-  unfold realizeSparse realizeRes
-  by_cases hs : st.sparse = 0
-  · exact ⟨os, by simp [hs], hn⟩
-  · simp only [hs, if_false]
-    by_cases hf : st.noSparse = true
-    · simp only [hf, if_true]
-      obtain ⟨os', h, hn'⟩ := sparseLoop_spec (if st.sparse > 1024 then 1024 else st.sparse)
-        (by split <;> omega) (st.sparse + 1) st os hn (by omega)
-      refine ⟨os', ?_, hn'⟩
-      rw [h, hf]
-    · simp only [hf]
-      obtain ⟨os', h, hn'⟩ := ftruncLoop_spec (os.sc.length + 1) (st.out.length + st.sparse) os hn (by omega)
-      simp only [Bool.false_eq_true, if_false, h]
-      exact ⟨os', rfl, hn'⟩
-
 /-- the state `file_append(data, size)` leaves when nothing fails -/
-def appendRes (o : OStream) (d : Bytes) : OStream :=
-  if d.length = 0 then { o with sparse := o.sparse + d.length, size := o.size + d.length }
-  else { realizeRes o with out := (realizeRes o).out ++ d, size := (realizeRes o).size + d.length }
+def appendRes (o : OStream) (d : Bytes) : OStream := stepRes o (.data d)
 
 theorem fileAppend_det (st : OStream) (d : Bytes) (size : Nat) (hsz : size = d.length) (os : OS)
     (hn : noHard os.sc = true) :
     ∃ os', fileAppend st (some d) size os = (.ok, appendRes st d, os') ∧ noHard os'.sc = true := by
   subst hsz
-  unfold fileAppend appendRes
-  by_cases hd : d.length = 0
-  · exact ⟨os, by simp [hd], hn⟩
-  · simp only [hd, if_false]
-    obtain ⟨os', h, hn'⟩ := realizeSparse_det st os hn
-    rw [h]
-    simp only []
-    obtain ⟨os'', hw, hn''⟩ := writeAll_spec (realizeRes st) d os' hn'
-    exact ⟨os'', hw, hn''⟩
+  exact ostreamStep_det st (.data d) os hn
 
 theorem istreamSpliceLoop_sim {σ τ : Type} {I : StreamI σ} {J : StreamI τ} {R : σ → τ → Prop} (hs : Sim I J R) :
     ∀ (fuel : Nat) (s : σ) (t : τ) (o : OStream) (size total : Nat) (os osj : OS), R s t →
